@@ -832,6 +832,17 @@ func (s *Scanner) tokSEMICOLON() token.Token {
 // set with Init. Token positions are relative to that file
 // and thus relative to the file set.
 func (s *Scanner) Scan() (pos token.Pos, tok token.Token, lit string) {
+	if s.unitVal != "" { // number with unit
+		// the unit ends at the current offset (before any white space is skipped)
+		pos = s.file.Pos(s.offset - len(s.unitVal))
+		tok, lit = token.UNIT, s.unitVal
+		s.unitVal = ""
+		if s.mode&dontInsertSemis == 0 {
+			s.insertSemi = true
+		}
+		return
+	}
+
 scanAgain:
 	s.skipWhitespace()
 
@@ -840,13 +851,6 @@ scanAgain:
 
 	// determine token value
 	insertSemi := false
-	if s.unitVal != "" { // number with unit
-		insertSemi = true
-		pos -= token.Pos(len(s.unitVal))
-		tok, lit = token.UNIT, s.unitVal
-		s.unitVal = ""
-		goto done
-	}
 	switch ch := s.ch; {
 	case isLetter(ch):
 		lit = s.scanIdentifier()
@@ -1041,7 +1045,6 @@ scanAgain:
 		}
 	}
 
-done:
 	if s.mode&dontInsertSemis == 0 {
 		s.insertSemi = insertSemi
 	}
